@@ -289,7 +289,7 @@ pub fn build_cases(prop: &str, tier: &str, seed: u64, pools: &Pools) -> Vec<Case
         }
     };
     // full rendering space on the cheap protocols
-    let full: Vec<P> = if thorough { vec![P::V1L, P::V2L, P::V3L, P::V4L] } else { vec![P::V4L] };
+    let full: Vec<P> = if thorough { vec![P::V1L, P::V2L, P::V3L, P::V4L, P::V2P, P::V4P] } else { vec![P::V4L] };
     for &p in &full {
         for (when, past) in instants() {
             for off in -1439..=1439i32 {
@@ -321,7 +321,7 @@ pub fn build_cases(prop: &str, tier: &str, seed: u64, pools: &Pools) -> Vec<Case
         }
     }
     // sampled renderings on the other protocols
-    let nsample = if thorough { 5000 } else { 300 };
+    let nsample = if thorough { 60_000 } else { 300 };
     for &p in &ALL {
         if full.contains(&p) {
             continue;
@@ -493,4 +493,4 @@ pub fn replay(prop: &str, case: &Value) -> Report {
     r
 }
 
-pub const RULE: &str = "payloads {\"exp\"|\"nbf\": value} are crafted at the core layer and parsed with PasetoParser::default(). Values: 13 instants (now-2s, -1min, -1h, -1d, -1y, 2000-01-01, 1971; now+60s, +1h, +1d, +1y, 2999, 9000-01-01) rendered by the harness's own calendar arithmetic with EVERY UTC offset -23:59..+23:59 x 0..9 fractional digits (strict grammar), 'Z', '-00:00' and lenient variants (space, 't', 'z') — full space on v4.local (thorough: all four local protocols), 300 (thorough 5000) sampled renderings on each other protocol; a catalogue of 40 non-timestamp values (numbers, booleans, arrays, objects, empty string, near-miss date strings) plus random text; null; absent; C12 additionally the 3x3 grid of (exp, nbf) in {past, future, absent} x 3 offsets. Plus clock-progress histories on all 8 protocols: a claim 1.5 s in the future is parsed, 2.6 s pass, and the SAME parser object (and a fresh one) must now give the opposite answer. Oracle: instant known by construction; strict renderings decide both ways, lenient renderings must merely never be accepted when out of window. distinct_nontrivial = distinct (protocol, outcome, class, instant, offset, fraction length, style) tuples";
+pub const RULE: &str = "payloads {\"exp\"|\"nbf\": value} are crafted at the core layer and parsed with PasetoParser::default(). Values: 13 instants (now-2s, -1min, -1h, -1d, -1y, 2000-01-01, 1971; now+60s, +1h, +1d, +1y, 2999, 9000-01-01) rendered by the harness's own calendar arithmetic with EVERY UTC offset -23:59..+23:59 x 0..9 fractional digits (strict grammar), 'Z', '-00:00' and lenient variants (space, 't', 'z') — full space on v4.local (thorough: all four local protocols and v2/v4 public), 300 (thorough 60000) sampled renderings on each other protocol; a catalogue of 40 non-timestamp values (numbers, booleans, arrays, objects, empty string, near-miss date strings) plus random text; null; absent; C12 additionally the 3x3 grid of (exp, nbf) in {past, future, absent} x 3 offsets. Plus clock-progress histories on all 8 protocols: a claim 1.5 s in the future is parsed, 2.6 s pass, and the SAME parser object (and a fresh one) must now give the opposite answer. Oracle: instant known by construction; strict renderings decide both ways, lenient renderings must merely never be accepted when out of window. distinct_nontrivial = distinct (protocol, outcome, class, instant, offset, fraction length, style) tuples";
